@@ -485,6 +485,12 @@ _mtbl_decompress_zlib(
 	*output_size -= ((*output_size) % 1024);
 	*output_size += 1024;
 
+	/* zlib counts the bytes available at next_in and next_out in an uInt. */
+	if (input_size > UINT_MAX)
+		return (mtbl_res_failure);
+	if (*output_size > UINT_MAX)
+		*output_size = UINT_MAX;
+
 	*output = my_malloc(*output_size);
 
 	zret = inflateInit(&zs);
@@ -499,10 +505,13 @@ _mtbl_decompress_zlib(
 		zret = inflate(&zs, Z_FINISH);
 		assert(zret == Z_STREAM_END || zret == Z_BUF_ERROR);
 		if (zret != Z_STREAM_END) {
-			*output = my_realloc(*output, *output_size * 2);
+			size_t grow = *output_size;
+			if (grow > UINT_MAX)
+				grow = UINT_MAX;
+			*output = my_realloc(*output, *output_size + grow);
 			zs.next_out = *output + *output_size;
-			zs.avail_out = *output_size;
-			*output_size *= 2;
+			zs.avail_out = grow;
+			*output_size += grow;
 		}
 	} while (zret != Z_STREAM_END);
 
